@@ -314,6 +314,63 @@ theorem numpy_scalar_not_loadable_before_fix :
         = .ok { siftType := defaultName, store := .dict (.cons (k "max_imfs") (.scalar (.int 3)) .nil) } :=
   ⟨.cons (k "max_imfs") (.scalar (.npint (k "int64") 3)) .nil, by decide, rfl, rfl, rfl⟩
 
+/-! ### object sharing: the model's no-aliasing assumption, made explicit
+
+The property's clauses are about a configuration and what is read from it *at that time*; the `Tree`
+model represents `get_func()`'s partial by the VALUE of the store when it was taken (`getFunc`).  The
+real partial shares the nested option dicts with the live configuration.  Judged outside C18 (the
+text promises a callable that behaves like the original call, not one that is frozen against later
+edits of the configuration it came from; upstream documents `get_func` as "a partial-function coded
+with the options from this config"); recorded here and observed on the real code by the harness. -/
+
+open Alias in
+/-- A partial (or `SiftConfig(name, **cfg)` / `dict(cfg)` copy) taken from a configuration and then
+    left alone denotes exactly the configuration's options — the case the `Tree` model covers. -/
+theorem alias_copy_denotes_same_options (h : Heap) (top : Top) :
+    resolve h (shallowCopy top) = resolve h top := rfl
+
+open Alias in
+/-- A later ONE-level edit of the configuration never reaches the partial: it rebinds an entry of the
+    configuration's own top-level dict; the partial's keyword dict and the heap are what they were. -/
+theorem alias_top_level_edit_not_seen (h : Heap) (top : Top) (key : Key) (v : Tree) :
+    let partialKw := shallowCopy top
+    let _cfgAfter := setTop top key v
+    resolve h partialKw = resolve h top := rfl
+
+open Alias in
+/-- A later NESTED edit (`cfg['parent/key'] = v`) always reaches it: the partial's `parent` entry is the
+    same dict object, which now holds `key ↦ v`. -/
+theorem alias_nested_edit_is_seen (h : Heap) (top : Top) (parent key : Key) (addr : Nat) (v : Tree)
+    (hp : slotOf top parent = some (.ref addr)) :
+    (resolve (setNested h addr key v) (shallowCopy top)).lookup parent = some (.dict ((h addr).insert key v)) := by
+  unfold shallowCopy
+  induction top with
+  | nil => simp [slotOf] at hp
+  | cons e r ih =>
+    obtain ⟨k', s⟩ := e
+    by_cases hk : k' = parent
+    · simp [slotOf, hk] at hp
+      subst hp
+      simp [resolve, Assoc.lookup, hk, resolveSlot, setNested]
+    · simp [slotOf, hk] at hp
+      simp [resolve, Assoc.lookup, hk, ih hp]
+
+open Alias in
+/-- Concrete witness (checked against the real code, stream `aliasing`): `f = cfg.get_func()`, then
+    `cfg['max_imfs'] = 1` is NOT seen by `f`, `cfg['imf_opts/sd_thresh'] = 5.0` IS. -/
+theorem get_func_shares_nested_dicts_current :
+    ∃ (h : Heap) (top : Top) (v : Tree),
+      (resolve h (shallowCopy top)).lookup (k "max_imfs") = (resolve h top).lookup (k "max_imfs") ∧
+      (resolve h (setTop top (k "max_imfs") v)).lookup (k "max_imfs") ≠ (resolve h (shallowCopy top)).lookup (k "max_imfs") ∧
+      (resolve (setNested h 0 (k "sd_thresh") v) (shallowCopy top)).lookup (k "imf_opts") ≠
+        (resolve h (shallowCopy top)).lookup (k "imf_opts") :=
+  ⟨fun _ => .cons (k "sd_thresh") (.scalar (.int 0)) .nil,
+   [(k "max_imfs", .val Tree.none), (k "imf_opts", .ref 0)], .scalar (.int 5), rfl,
+   by simp [resolve, shallowCopy, setTop, resolveSlot, Assoc.lookup, Tree.none],
+   by
+    have e : (k "max_imfs" = k "imf_opts") = False := by decide
+    simp [resolve, shallowCopy, setNested, resolveSlot, Assoc.lookup, Assoc.insert, e]⟩
+
 /-! ### default configurations -/
 
 /-- `get_config(name)` holds exactly the signature defaults: every top-level parameter of the
